@@ -372,7 +372,9 @@ pub fn generate(p: &Profile, r: &mut Rng) -> Program {
                 b
             };
             let fmode = |r: &mut Rng| -> Mode {
-                if r.chance(p.poll_drop, 100) { Mode::PollDrop(r.below(3)) } else { match r.below(4) { 0 => Mode::Detach, 1 => Mode::SyncWait, _ => Mode::Await } }
+                // a future that is polled (so that it runs the queue itself) and then dropped leaves the queue to the pool: with no
+                // pool thread nobody may ever run it again, which C07 excludes ("given at least one pool thread")
+                if pool >= 1 && r.chance(p.poll_drop, 100) { Mode::PollDrop(r.below(3)) } else { match r.below(4) { 0 => Mode::Detach, 1 => Mode::SyncWait, _ => Mode::Await } }
             };
             let op;
             if k < p.w_desync { op = Op::Desync(q, body(r, false, &mut nev, &mut fires)); }
